@@ -255,7 +255,7 @@ def engine(pid, spec, tier, ws, out, log_dir, known):
             for method in ("get_info", "make_credential", "get_assertion"):
                 name = e2.find_fn("ctap2::<impl", "::%s::{closure#0}" % method)
                 ex = Executor(e2.fns[name])
-                ps = ex.run()
+                ps = e2.feasible(ex.run())
                 e2.functions.append(name)
                 npaths += len(ps)
                 findings += C.check_forwarding(ps, method, e2.ctx)
